@@ -641,6 +641,9 @@ structure St where
   writes HERE, not into the scripted environment; `get_wrapper_attr` looks here first -/
   shadow : List (String × Int) := []
   closed : Bool := false
+  /-- what `reset()` puts into its info: 0 = always `reset_tag / seed / options`; 1 = that only for a reset that was given
+  a seed or options, `{}` for an argument-less (automatic) reset; 2 = always `{}` -/
+  resetStyle : Nat := 0
   deriving DecidableEq, Repr
 
 /-- `harness/envs.py:make_tag` -/
@@ -658,8 +661,10 @@ def optOptsVal : Option Opts → Val Nat
 def reset (s : St) (seed : Option Int) (options : Option Opts) : St × (Nat × Info Nat) :=
   let ep := s.episode + 1
   let tag := makeTag s.envId ep 0
-  ({ s with episode := ep, stepInEp := 0 },
-    (tag, [("reset_tag", .int tag), ("seed", optSeedVal seed), ("options", optOptsVal options)]))
+  let full : Info Nat := [("reset_tag", .int tag), ("seed", optSeedVal seed), ("options", optOptsVal options)]
+  let info : Info Nat :=
+    if s.resetStyle = 2 then [] else if s.resetStyle = 1 ∧ seed.isNone ∧ options.isNone then [] else full
+  ({ s with episode := ep, stepInEp := 0 }, (tag, info))
 
 def step (s : St) (a : Int) : St × Raw Nat Rat :=
   let e := s.script.getD (s.nSteps % s.script.length) (0, false, false)
